@@ -1358,6 +1358,10 @@ def _r4_r6_r7(ctx, pkg):
         if creates and not ok and not any(v is False for v in verdicts):
             ctx.unrec("R7", "--ode-modifier: fresh lists per species", (INIT, lp.lineno), f"cannot tell whether a new ODE-modifier entry owns its lists: {found[:120]}")
             ok = None
+    if not loops:
+        # no loop over the occurrences of the option was recognised: how the entries are built is not read -- no verdict
+        ctx.unrec("R7", "--ode-modifier: fresh lists per species", (INIT, ih.lineno), "the loop over the --ode-modifier occurrences was not found: how a new entry is built is not read")
+        ok = None
     if ok is not None:
         ctx.check(ok, "R7", "--ode-modifier: fresh lists per species", (INIT, loops[0].lineno if loops else ih.lineno),
                   "a new entry is a dict display with its own list displays" if ok else
